@@ -440,6 +440,9 @@ func (env *SpecEnv) evalIndex(x *SIndex) Val {
 	switch b := base.(type) {
 	case ArrV:
 		i := env.evalInt(x.I)
+		if b.ElemT != nil {
+			return in.thaw(Select(b.T, i), b.ElemT, env.f)
+		}
 		return env.thawSort(Select(b.T, i))
 	case SliceV:
 		i := env.evalInt(x.I)
@@ -654,7 +657,13 @@ func (env *SpecEnv) evalCall(x *SCall) Val {
 		argn(3)
 		c := env.evalBool(x.Args[0])
 		a, b := env.eval(x.Args[1]), env.eval(x.Args[2])
-		return Sc{Ite(c, a.(Sc).T, b.(Sc).T)}
+		as, aok := a.(Sc)
+		bs, bok := b.(Sc)
+		if !aok || !bok {
+			// byte strings (slices / arrays / Str): compare as Str
+			return Sc{Ite(c, env.asStr(a), env.asStr(b))}
+		}
+		return Sc{Ite(c, as.T, bs.T)}
 	case "min":
 		argn(2)
 		return Sc{Min(env.evalInt(x.Args[0]), env.evalInt(x.Args[1]))}
@@ -720,6 +729,33 @@ func (env *SpecEnv) evalCall(x *SCall) Val {
 	case "cat":
 		argn(2)
 		return Sc{App("sconcat", SStr, env.asStr(env.eval(x.Args[0])), env.asStr(env.eval(x.Args[1])))}
+	case "gmap":
+		// gmap("name", obj): a named ghost map (bytes -> bytes) attached to an object (an interface
+		// value or a pointer); only contracts read and write it
+		argn(2)
+		lit, ok := x.Args[0].(*SStrLit)
+		if !ok {
+			env.fail("gmap: the first argument is a string literal naming the ghost map")
+		}
+		var key string
+		switch o := env.eval(x.Args[1]).(type) {
+		case Sc:
+			key = o.T.S
+		case PtrV:
+			key = in.refOf(o).S
+		default:
+			env.fail("gmap: object is %T (expected an interface value or a pointer)", o)
+		}
+		if in.dbCells == nil {
+			in.dbCells = map[string]*Cell{}
+		}
+		ck := "gmap:" + lit.V + ":" + key
+		c, ok := in.dbCells[ck]
+		if !ok {
+			c = in.newCell("g_"+lit.V+"("+trunc(key, 20)+")", CMap, dbMapType)
+			in.dbCells[ck] = c
+		}
+		return MapV{M: c, Nil: TFalse}
 	case "dbhealthy":
 		argn(1)
 		d, ok := env.eval(x.Args[0]).(Sc)
@@ -893,6 +929,11 @@ func (env *SpecEnv) sortOfName(name string) string {
 		et := env.sortOfName(name[2:])
 		return ArrSort(et)
 	}
+	if strings.HasPrefix(name, "*") {
+		if t := env.in.W.lookupType(env.pkgPath, name[1:]); t != nil {
+			return env.in.sortOf(types.NewPointer(t))
+		}
+	}
 	t := env.in.W.lookupType(env.pkgPath, name)
 	if t == nil {
 		env.fail("unknown type %q", name)
@@ -912,7 +953,7 @@ func (env *SpecEnv) evalQuant(x *SQuant) Val {
 		vars = append(vars, v)
 		var val Val = Sc{v}
 		if strings.HasPrefix(s, "(Array Int ") {
-			val = ArrV{T: v}
+			val = ArrV{T: v, ElemT: env.elemGoType(b.Type)}
 		}
 		sub = sub.bind(b.Name, val)
 		// Go-typed binders range over the type's values
@@ -978,7 +1019,7 @@ func (env *SpecEnv) callOpaqueSpecFunc(sf *SpecFunc, args []Val) Val {
 			vars = append(vars, v)
 			sorts = append(sorts, v.Sort)
 			if strings.HasPrefix(v.Sort, "(Array Int ") {
-				sub.vars[p.Name] = ArrV{T: v}
+				sub.vars[p.Name] = ArrV{T: v, ElemT: sub.elemGoType(p.Type)}
 			} else {
 				sub.vars[p.Name] = Sc{v}
 			}
@@ -1055,4 +1096,33 @@ func (env *SpecEnv) snapshot(v Val, st *State, depth int) Val {
 		return StructV{Typ: x.Typ, F: nf}
 	}
 	return v
+}
+
+// elemGoType: for a spec type name of the form []T or []*T with T a (structured) Go type of the
+// package, the Go element type; nil otherwise (scalars, byte strings, nested arrays).
+func (env *SpecEnv) elemGoType(name string) types.Type {
+	if !strings.HasPrefix(name, "[]") {
+		return nil
+	}
+	n := name[2:]
+	ptr := strings.HasPrefix(n, "*")
+	n = strings.TrimPrefix(n, "*")
+	switch n {
+	case "int", "int64", "uint64", "uint16", "uint8", "byte", "uint32", "int32", "uint", "bool", "string", "bytes", "error":
+		return nil
+	}
+	if strings.HasPrefix(n, "[]") {
+		return nil
+	}
+	t := env.in.W.lookupType(env.pkgPath, n)
+	if t == nil {
+		return nil
+	}
+	if _, isStruct := t.Underlying().(*types.Struct); !isStruct {
+		return nil
+	}
+	if ptr {
+		return types.NewPointer(t)
+	}
+	return t
 }
